@@ -1680,7 +1680,7 @@ Definition no_reenter (ip : N) (s : state) : rres := RStop AUnmodelled s.
 Definition run_flat (F : fops) (bld : build) (budget : nat) (P : program) (s : state) : outcome * state :=
   match push_frame s (mkFrame 0 0 0 None) with
   | None => (OErr ECallStackOverflow [], s)
-  | Some s1 => finish P (loop_flat F bld P no_reenter budget 0 (set_rem s1 (N.of_nat budget)))
+  | Some s1 => finish P (loop_flat F bld P no_reenter budget 0 s1)
   end.
 
 (* Vm::read_var_by_name *)
